@@ -446,6 +446,9 @@ func genWork(seed uint64) (twork, simrt.FaultPlan, simrt.MapPolicy, uint64) {
 	g := gridOf(t)
 	maxID := 2 + r.Intn(9)
 	n := 1 + r.Intn(4)
+	if r.Chance(0.15) {
+		n = 5 + r.Intn(3) // the README's own example asks for five
+	}
 	if n > maxID+1 {
 		n = maxID + 1
 	}
@@ -465,11 +468,15 @@ func genWork(seed uint64) (twork, simrt.FaultPlan, simrt.MapPolicy, uint64) {
 		parts = append(parts, pathElem(r))
 	}
 	file := pathElem(r)
-	switch r.Intn(4) {
+	switch r.Intn(6) {
 	case 0:
 		file += ".gpkg"
 	case 1:
 		file = strings.ReplaceAll(file, ".", "x") // no extension at all
+	case 2:
+		// the extension's text also occurs earlier in the name
+		ext := []string{".gpkg", ".1", ".x", ".db"}[r.Intn(4)]
+		file = strings.ReplaceAll(file, ".", "_") + ext + ext
 	}
 	parts = append(parts, file)
 	w.TargetRel = strings.Join(parts, "/")
